@@ -28,7 +28,7 @@ from runner import Infra, TieBroken
 ID = "C18"
 LEAN_MODULES = ["PyYetiVerif.Props.C18", "PyYetiVerif.Props.C18Up", "PyYetiVerif.Props.C18Idx", "PyYetiVerif.Props.C18Xyz",
                 "PyYetiVerif.Props.C18Tran", "PyYetiVerif.Props.C18Ulvs", "PyYetiVerif.Props.C18Prt", "PyYetiVerif.Props.C18Cyc",
-                "PyYetiVerif.Props.C18Tran0", "PyYetiVerif.Props.C18TranM", "PyYetiVerif.Props.C18Assoc",
+                "PyYetiVerif.Props.C18Tran0", "PyYetiVerif.Props.C18TranM", "PyYetiVerif.Props.C18Assoc", "PyYetiVerif.Props.C18Shapes",
                 "PyYetiVerif.Audit.C18"]
 AUDIT_FILE = "PyYetiVerif/Audit/C18.lean"
 THEOREMS = [
@@ -40,6 +40,8 @@ THEOREMS = [
         " iddofG_eq_iddofOf iddofG_is_gset_rows"
         " dot_assoc_rect dotChain_one_append ShapesAgree_rect ShapesAgree_chain_ok formulvs_path_composes ulvsLevels_complete"
         " ulvsLevels_sound formulvs_path_composes_of_test"
+        " formulvs_path_composes_rect WF_iff_wfB formtranUpWith_rect formtran0With_rect formtran_rect ulvsLevel_rect"
+        " formulvs_path_composes_wf"
     ).split()
 ]
 TRUSTED = [
@@ -157,11 +159,14 @@ PARTIAL = (
     "formtran-se0-gset-repeated-dof). formulvs / formdrm / addulvs are proved as products / rows / stored entries of "
     "formtran levels (formulvs_chain_is_product: left-to-right product along the tree path; the product is associative on rectangular "
     "matrices - dot_assoc_rect, dotChain_one_append: equalities of values, the ValueError of unequal inner dimensions "
-    "included - and ULVS composes along a tree path, formulvs_path_composes: ULVS(a->c) = ULVS(a->b) ULVS(b->c) for an SE b "
-    "strictly between, under the shape hypothesis that the level matrices from a down to c pass the decidable test "
-    "ShapesAgree (each a rectangular array, inner dimensions of neighbours equal); that the levels formtran returns pass "
-    "it is NOT proved - the test is run by the driver on every generated formulvs case (stream formulvs-shapes, "
-    "formulvs_path_composes_of_test) and its level shapes are compared with those of the real one-level calls). usetprt: the returned "
+    "included - and ULVS composes along a tree path, formulvs_path_composes_wf: ULVS(a->c) = ULVS(a->b) ULVS(b->c) for an SE b "
+    "strictly between, for every dictionary whose stored phg / pha are rectangular arrays (WF: a decidable predicate on "
+    "the input, = the driver test wfB run on every generated case, WF_iff_wfB) - no hypothesis on formtran's output: "
+    "formtran_rect (the matrix formtran returns is a rectangular array: se != 0 whatever got / goq / gm hold, residual "
+    "under WF) and ulvsLevel_rect (every level, any keepcset / gset) are proved; that the column count of a level equals "
+    "the row count of the next one is NOT proved as a theorem about the dictionary - it is not needed: the theorems are "
+    "equalities of values in which both sides raise the ValueError of np.dot alike - and is tested per case by the "
+    "stream formulvs-shapes (ShapesAgree of the model's levels, shapes compared with the real one-level calls). usetprt: the returned "
     "table is proved (usetprt_table_is_partition_listing), the printed text is not modelled. On the nas2cam files of "
     "pyYeti's tests (non-integer matrices) the matrix routines are compared numerically (model over exact rationals, "
     "1e-9 of the largest entry), not exactly. Float / mixed int-float inputs are "
@@ -184,7 +189,8 @@ MANIFEST = {
     "t- and q-columns for o-set DOF, zero for s-set DOF, GM composed with the n-set rows for m-set DOF (semiring), "
     "columns = the a-set (any linear order of the [id, dof] rows); residual: g-set selection / phg rows / pha recovery; formulvs = left-to-right product of the per-level formtran matrices along the tree path for "
     "any depth and any keepcset / shortcut / gset, the product associative on rectangular matrices and ULVS(a->c) = "
-    "ULVS(a->b) ULVS(b->c) along a tree path (levels passing the shape test); formdrm = rows of formtran times ULVS; addulvs stores exactly "
+    "ULVS(a->b) ULVS(b->c) along a tree path for dictionaries with rectangular phg / pha (formtran proved to return "
+    "rectangular arrays); formdrm = rows of formtran times ULVS; addulvs stores exactly "
     "formulvs; the table of usetprt is the listing of the requested sets (each DOF once, table order, numbered per "
     "set); mkusetmask expressions are unions (idempotent, commutative, associative), mkdofpv on expressions; "
     "find_subseq membership form without wrap / clip; upqsetpv on a cyclic selist never returns (pigeonhole); exact "
@@ -194,9 +200,9 @@ MANIFEST = {
     "overwriting an earlier flag at a shared place, broadcasting) is tied (correspondence + construction oracle) but "
     "nothing is claimed; make_uset coordinates with split component lists (undocumented) are only modelled; "
     "find_xyz_triples on inexact data (tolerance rule) is tied numerically (exact pv, coordinates / scales to 1e-9) but "
-    "not proved; the m-set rows of the residual's pha branch are located, not expanded; that the formtran levels are "
-    "rectangular arrays of fitting shapes (hypothesis ShapesAgree of formulvs_path_composes) is tested by the driver on "
-    "every generated case (stream formulvs-shapes), not proved; the printed text of usetprt is not "
+    "not proved; the m-set rows of the residual's pha branch are located, not expanded; that the inner dimensions of neighbouring "
+    "formulvs levels agree is tested by the driver on every generated case (stream formulvs-shapes), not proved (not "
+    "needed by formulvs_path_composes_wf: a mismatch is the same ValueError on both sides); the printed text of usetprt is not "
     "modelled; on the (non-integer) nas2cam test files the matrix routines are compared to 1e-9, not exactly",
     "technique": "Lean 4 proof about executable models + ast translator for mkusetmask + exact differential "
     "correspondence + model-free oracle",
@@ -853,7 +859,7 @@ def _tran_streams(ctx, cs, masks):
                             shp.append("%d %d" % np.asarray(r1[1]).shape)
                         if shp is not None:
                             cs.add("formulvs-shapes", "fshapes %d %d %d %d | %s" % (c, sedn, kc, gset, secs),
-                                   "ok 1 | " + " ; ".join(shp),
+                                   "ok 1 | " + " ; ".join(shp) + " | wf 1",
                                    dict(plain, what="formulvs-shapes", seup=c, sedn=sedn, keepcset=kc, gset=gset),
                                    nontrivial=depth > 1, branch="formulvs-shapes:depth-%d" % min(depth, 3))
             # seup == sedn, an SE that is not in selist
